@@ -308,6 +308,14 @@ def run_impl(lines, errs=None):
     return out
 
 
+def probe(fam, values):
+    """oracle tabulation: run the harness on values of a probe family, return decoded observations"""
+    if not values:
+        return []
+    obs = run_impl([fam + " " + vlib.enc(v) for v in values])
+    return [vlib.dec(o) for o in obs]
+
+
 def run_model(prop, lines_with_obs):
     """lines 'fam value | obs' -> list of (model_obs, chk_model, chk_impl)"""
     p = subprocess.run([DRIVER, "chk", prop], input="\n".join(lines_with_obs) + "\n",
@@ -377,9 +385,16 @@ def candidates(v):
             yield v - 1 if v > 0 else v + 1
 
 
-def shrink(prop, fam, case, pred, rounds=40, width=96):
+SHRINK_DEADLINE = [None]
+
+
+def shrink(prop, fam, case, pred, rounds=40, width=64):
     cur = case
+    if SHRINK_DEADLINE[0] is None:
+        SHRINK_DEADLINE[0] = time.time() + float(os.environ.get("VERIF_SHRINK_BUDGET", "90"))
     for _ in range(rounds):
+        if time.time() > SHRINK_DEADLINE[0]:
+            break
         cands = []
         seen = set()
         for c in candidates(cur):
@@ -497,7 +512,8 @@ def main():
     # 3. cases
     cases = load_corpus(prop)
     ncorpus = len(cases)
-    for fam, val, tag in gen.cases(tier, seed):
+    ctx = {"hx": HX, "env": hx_env(), "root": ROOT, "repo": REPO, "work": WORK, "probe": probe}
+    for fam, val, tag in gen.cases(tier, seed, ctx):
         cases.append((fam + " " + vlib.enc(val), tag))
     lines = [c for c, _ in cases]
     tags = [t for _, t in cases]
@@ -535,7 +551,7 @@ def main():
         violations.append("VIOLATION property=%s replay=%s%s" % (prop, path, suffix))
 
     seen_keys = set()
-    for c, r in fails[:6]:
+    for c, r in fails[:3]:
         fam, _, val = c.partition(" ")
         small = shrink(prop, fam, vlib.dec(val), lambda x: x["ci"] != "1" and x["cm"] == "1" and x["model"] != BAD)
         c2 = fam + " " + vlib.enc(small)
